@@ -29,11 +29,43 @@ type Record struct {
 	Err      string
 }
 
-type Transport struct {
+// Sink collects the records of the hosts registered with it (one per world).
+type Sink struct {
 	mu      sync.Mutex
-	hosts   map[string]http.Handler
 	Records []*Record
-	seq     int
+}
+
+// From returns the records from index i on and the new index.
+func (s *Sink) From(i int) ([]*Record, int) {
+	s.mu.Lock()
+	defer s.mu.Unlock()
+	if i > len(s.Records) {
+		i = len(s.Records)
+	}
+	out := append([]*Record(nil), s.Records[i:]...)
+	return out, len(s.Records)
+}
+
+func (s *Sink) Len() int {
+	s.mu.Lock()
+	defer s.mu.Unlock()
+	return len(s.Records)
+}
+
+// Forget drops the bodies of the records before index i (memory).
+func (s *Sink) Forget(i int) {
+	s.mu.Lock()
+	defer s.mu.Unlock()
+	for k := 0; k < i && k < len(s.Records); k++ {
+		s.Records[k].ReqBody, s.Records[k].RespBody = nil, nil
+	}
+}
+
+type Transport struct {
+	mu    sync.Mutex
+	hosts map[string]http.Handler
+	sinks map[string]*Sink
+	seq   int
 	// Before is called before a request is served; it may return an error (the
 	// round trip fails without reaching the mint) or panic (crash injection).
 	Before func(r *Record) error
@@ -54,7 +86,7 @@ var once sync.Once
 // Install makes the process-wide transport (idempotent) and returns it.
 func Install() *Transport {
 	once.Do(func() {
-		global = &Transport{hosts: map[string]http.Handler{}, Keep: true}
+		global = &Transport{hosts: map[string]http.Handler{}, sinks: map[string]*Sink{}, Keep: true}
 		http.DefaultTransport = global
 	})
 	return global
@@ -66,9 +98,17 @@ func (t *Transport) Register(host string, h http.Handler) {
 	t.mu.Unlock()
 }
 
+// RegisterSink makes the records of host go to sink.
+func (t *Transport) RegisterSink(host string, sink *Sink) {
+	t.mu.Lock()
+	t.sinks[host] = sink
+	t.mu.Unlock()
+}
+
 func (t *Transport) Unregister(host string) {
 	t.mu.Lock()
 	delete(t.hosts, host)
+	delete(t.sinks, host)
 	t.mu.Unlock()
 }
 
@@ -108,6 +148,7 @@ func (t *Transport) RoundTrip(req *http.Request) (*http.Response, error) {
 	host := req.URL.Host
 	t.mu.Lock()
 	h := t.hosts[host]
+	sink := t.sinks[host]
 	t.seq++
 	rec := &Record{Seq: t.seq, Host: host, Method: req.Method, Path: req.URL.RequestURI()}
 	t.mu.Unlock()
@@ -119,10 +160,10 @@ func (t *Transport) RoundTrip(req *http.Request) (*http.Response, error) {
 		return nil, fmt.Errorf("inproc: no such host %q", host)
 	}
 	keep := func() {
-		if t.Keep {
-			t.mu.Lock()
-			t.Records = append(t.Records, rec)
-			t.mu.Unlock()
+		if sink != nil {
+			sink.mu.Lock()
+			sink.Records = append(sink.Records, rec)
+			sink.mu.Unlock()
 		}
 	}
 	if t.Before != nil {
@@ -163,28 +204,6 @@ func (t *Transport) RoundTrip(req *http.Request) (*http.Response, error) {
 	}
 	return &http.Response{StatusCode: status, Status: http.StatusText(status), Header: header, Body: io.NopCloser(bytes.NewReader(body)),
 		ContentLength: int64(len(body)), Request: req, Proto: "HTTP/1.1", ProtoMajor: 1, ProtoMinor: 1}, nil
-}
-
-// Take returns and clears the records.
-func (t *Transport) Take() []*Record {
-	t.mu.Lock()
-	defer t.mu.Unlock()
-	r := t.Records
-	t.Records = nil
-	return r
-}
-
-// Since returns the records with Seq > seq (not cleared).
-func (t *Transport) Since(seq int) []*Record {
-	t.mu.Lock()
-	defer t.mu.Unlock()
-	var out []*Record
-	for _, r := range t.Records {
-		if r.Seq > seq {
-			out = append(out, r)
-		}
-	}
-	return out
 }
 
 func (t *Transport) Seq() int {
